@@ -199,7 +199,7 @@ def b_poly(tier):
         es = [e for e, _ in pl.data]
         return es == sorted(set(es)) and all(c != 0 for _, c in pl.data)
     import operator
-    pairs = list(itertools.product(polys[::3], polys[::4]))
+    pairs = list(itertools.product(trees.thin(polys, max(1, len(polys) // 3), seed=1), trees.thin(polys, max(1, len(polys) // 4), seed=2)))
     for a, c in pairs[:4000 if tier == "thorough" else 1500]:
         for opn, op in (("add", operator.add), ("sub", operator.sub), ("mul", operator.mul)):
             r = outcome.run(lambda: op(a, c))
@@ -209,7 +209,7 @@ def b_poly(tier):
                 b.fail(Failure("polynomials", f"what={opn} p={a.data} q={c.data}", dict(kind="poly", op=opn, p=repr(a.data), q=repr(c.data)),
                                expected="homomorphic, well-formed", actual=(outcome.describe(r) if r[0] == "exc" else repr(getattr(r[1], 'data', r[1])))[:200],
                                functions=[f"Polynomial.__{opn}__"]))
-    for a in polys[::2]:
+    for a in trees.thin(polys, max(1, len(polys) // 2), seed=3):
         for n in (0, 1, 2, 3):
             r = outcome.run(lambda: a ** n)
             b.case(("pow", repr(a.data), n))
@@ -235,7 +235,7 @@ def b_poly(tier):
                            actual=(outcome.describe(r) if r[0] == "exc" else repr(tuple(r[1].data)))[:200], functions=["IdentityMapper.map_polynomial"]))
     # division with remainder over the rationals
     ints = [pl for pl in polys if all(isinstance(c, int) for _, c in pl.data)]
-    for a, d in itertools.islice(itertools.product(ints[::3], ints[1::4]), 0, 900):
+    for a, d in itertools.islice(itertools.product(trees.thin(ints, max(1, len(ints) // 3), seed=4), trees.thin(ints, max(1, len(ints) // 4), seed=5)), 0, 900):
         if d.degree == -1:
             continue
         af, df = a, d
